@@ -5,7 +5,7 @@ from pathlib import Path
 
 VERIF = Path(__file__).resolve().parent.parent
 
-BUILT = ["C09", "C12", "C13", "C19"]
+BUILT = ["C05", "C09", "C12", "C13", "C18", "C19"]
 
 CHECKS = {
     "C05": dict(
